@@ -15,6 +15,9 @@ def cmp_lines(c, m):
     if c == m: return None
     if c == 'O crash':
         return None if ('=ub' in m or '=hang' in m) else 'implementation crashed where the model predicts a defined result'
+    if m.startswith('O mem='):      # `M`: the model's `ub` (Terminal compared with the key) shows as a stray exception
+        if m in ('O mem=ub', 'O mem=hang') and c == 'O mem=exc': return None
+        return 'mem differs'
     ga, gb = GLINE.match(c), GLINE.match(m)
     if ga and gb:       # `G`: a walk whose body calls get
         ci, mi = _items(ga.group(1)), _items(gb.group(1))
@@ -163,6 +166,79 @@ def get_walk_lines(rng, count):
             else: e = f'(slice (range {n}))'
             i = rng.randint(0, max(0, n - 1)); k = i if rng.random() < 0.7 or n == 0 else i - n
         out.append(f'G {i} {k} {e}')
+    return out
+
+def c_range_len(a, b, c):
+    if c == 0 or b <= a: return 0
+    return (b - 1 - a) // abs(c) + 1
+def range_values(a, b, c):
+    return [a + c * j for j in range(c_range_len(a, b, c))] if c > 0 else [b - 1 + c * j for j in range(c_range_len(a, b, c))]
+def range_mem_deviates(a, b, c, k):
+    """Range_Mem tests key + len for a negative key: does that differ from the membership of the key itself?"""
+    if k >= 0: return False
+    vals = set(range_values(a, b, c))
+    return (k in vals) != ((k + c_range_len(a, b, c)) in vals)
+
+def mem_lines(rng, count, slice_absent=False, range_neg=False):
+    """`M k e`: Range_Mem (non-negative keys, and negative ones on which key and key+len agree), Slice_Mem with a key that is in the
+    slice, Filter_Mem / Map_Mem with any key.  slice_absent / range_neg: the territories of kf-c11-slice-mem / kf-c11-range-mem"""
+    out = []
+    for _ in range(count):
+        r = rng.random()
+        if r < 0.4:
+            a, b, c = rng.randint(-12, 12), rng.randint(-12, 14), rng.choice([1, 1, 2, 3, -1, -2, -3, 5, 0, rng.randint(-6, 6)])
+            k = rng.randint(-14, 16)
+            if range_mem_deviates(a, b, c, k) and not range_neg: k = -k
+            out.append(f'M {k} (range {a} {b} {c})')
+        elif r < 0.75:
+            n = rng.randint(0, 8); vals = ints(rng, n, -9, 9)
+            kind = rng.choice(('array', 'list', 'tuple', 'range', 'map'))
+            if kind == 'tuple': vals = rng.sample(range(30), n)
+            if kind == 'range': vals = list(range(n)); b = f'(range {n})'
+            elif kind == 'map': b = f"(map (list {' '.join(map(str, vals))}) 2 1)".replace(' )', ')'); vals = [2 * v + 1 for v in vals]
+            else: b = f"({kind} {' '.join(map(str, vals))})".replace(' )', ')')
+            e = rng.choice([f'(slice {b})', f'(reverse {b})', f'(slice {b} _ _ 1)', f'(slice {b} 0 {n})', f'(slice {b} 0 _ -1)'])
+            if slice_absent and rng.random() < 0.6:
+                if rng.random() < 0.5: e = f"(slice {b} {rng.randint(-n - 1, n + 1)} {rng.randint(-n - 1, n + 1)} {rng.choice([1, 2, -1, -2, 3, 0])})"
+                k = rng.randint(-12, 40)
+            elif vals: k = rng.choice(vals)
+            else: continue
+            out.append(f'M {k} {e}')
+        else:
+            n = rng.randint(0, 8); b = base(rng, n, ('array', 'list', 'range', 'marray', 'mlist', 'tuple'))
+            e = rng.choice([f'(filter {b} {rng.randint(1, 3)} {rng.randint(0, 2)})', f'(map {b} {rng.randint(-2, 3)} {rng.randint(-3, 3)})',
+                            f'(map (filter {b} 2 {rng.randint(0, 1)}) 1 1)', f'(filter (reverse {b}) 1 0)'])
+            out.append(f'M {rng.randint(-10, 30)} {e}')
+    return out
+
+I64MIN, I64MAX = -2**63, 2**63 - 1
+def range_fits(a, b, c, d):
+    """RangeFitsFwd (d = 0) / RangeFitsBwd (d = 1) of lean/Cello/Iter.lean"""
+    ok = lambda x: I64MIN <= x <= I64MAX
+    if c == 0: return True
+    n = c_range_len(a, b, c)
+    if d == 0: return ok(a + c * n) if c > 0 else (ok(b - 1) and ok(b - 1 + c * n))
+    if not (b <= a or (ok(b - 1) and ok(b - 1 - a) and (c > 0 or ok(-c)))): return False
+    if n == 0: return True
+    return ok(a - c) if c > 0 else ok(b - 1 - c)
+
+def range64_lines(rng, count, overflow=False):
+    """`R a b c`: Ranges near the limits of int64_t with few elements; overflow: also those whose walk leaves int64_t
+    (territory of kf-c11-range-overflow)"""
+    out = []
+    while len(out) < count:
+        edge = rng.choice([I64MAX, I64MIN, I64MAX, I64MIN, 0])
+        n = rng.randint(0, 12)
+        c = rng.choice([1, 2, 3, 7, -1, -2, -5, rng.randint(1, 10**6), -rng.randint(1, 10**6), rng.choice([1, -1]) * rng.randint(2**40, 2**62), I64MAX, I64MIN])
+        span = abs(c) * n + rng.randint(0, min(abs(c), 50))
+        if edge > 0: b = edge - rng.randint(0, 3 * min(abs(c), 40)); a = b - span
+        elif edge < 0: a = edge + rng.randint(0, 3 * min(abs(c), 40)); b = a + span
+        else: a = -(span // 2); b = a + span
+        if rng.random() < 0.1: a, b = b, a
+        if not (I64MIN <= a <= I64MAX and I64MIN <= b <= I64MAX): continue
+        if c_range_len(a, b, c) > 900: continue
+        if not overflow and not (range_fits(a, b, c, 0) and range_fits(a, b, c, 1)): continue
+        out.append(f'R {a} {b} {c}')
     return out
 
 def registered(sig):
@@ -375,7 +451,12 @@ class C11(Spec):
                   'leaves the cursor alone" (containers, Slice / Filter over them: C11_get_pure_objects). One object k times in a Zip: right when '
                   'the cursor is the pointer the caller holds (C11_zip_same_object_cursor_held). The full statements for Slice, Zip backward, '
                   'Zip get at negative indices, Tuple, get during a walk over Range / Map / Zip, and one Range / Map / Zip object twice in a Zip '
-                  'are refuted on concrete witnesses (known findings). The model is tied to the code on '
+                  'are refuted on concrete witnesses (known findings). Range on int64_t (rangeI64, every signed operation with its overflow test): '
+                  'C11_range64_lawful per direction under RangeFitsFwd / RangeFitsBwd (the value one step beyond the last / before the first element fits), '
+                  'C11_range64_refuted without. Zip of no inputs: C11_zip_no_inputs (the Zip theorems no longer exclude it). mem: C11_mem_foreach '
+                  '(Filter / Map / Zip: exactly membership), C11_slice_mem_partial / _never_false / _refuted (Slice_Mem finds a present key and never '
+                  'answers false), C11_range_mem_is / _partial / _refuted (Range_Mem answers the membership of key+len for a negative key). '
+                  'The model is tied to the code on '
                   'every run: all 19^3 Range and 9*19^3 Slice parameter triples over Array/Tuple/Range (and smaller cubes over List, Table, '
                   'Tree, Zip, Map) produce the same items, end markers, len and get in C and in Lean. '
                   'MUTATED containers (Cello/IterMut.lean): List is modelled with its head / tail / next / prev link words and List_Link, '
@@ -389,10 +470,13 @@ class C11(Spec):
     level_note = ('Trusted: Lean kernel; axioms propext/Quot.sound/Classical.choice; the hand-written model Cello/Iter.lean (validated by the '
                   'harness/driver comparison, which is testing); harness/h_iter.c and lean/Driver/Iter.lean. Inside known-finding territory '
                   '(Slice outside its region, backward walk / negative get over a Zip of unequal inputs, Tuple with a repeated object, get on a '
-                  'Range / Map / Zip during a walk, one such object twice in a Zip) the property is known to FAIL; '
+                  'Range / Map / Zip during a walk, one such object twice in a Zip, mem on a Slice with an absent key, mem on a Range with a negative key, '
+                  'a Range whose walk leaves int64_t) the property is known to FAIL; '
                   'there the check only verifies that the implementation still behaves as the model predicts. Where the model says the C code '
                   'leaves the protocol (Terminal used as a cursor: `ub`) the implementation is executed in a forked worker and only the '
-                  'items before that point are compared. int64 wrap-around of Range values and pointer identity of Filter/Map callables are '
+                  'items before that point are compared. Signed overflow of Range values is `ub` in rangeI64 (the harness runs under UBSan); the '
+                  'composition theorems use the Range on Int. Every element of the generated containers is an Int (the element-size stride of '
+                  'Array / Table iteration is exercised by C04 / C10 / C02, not here); pointer identity of Filter/Map callables is '
                   'not modelled. Tree iterates in DESCENDING key order (Tree_Set keeps the greater key on the left); C11 does not fix an order. '
                   'A mutated Tree is modelled by a plain binary-search shape with the nitems field (rotations do not change the in-order '
                   'sequence and the iteration theorem holds for every shape); Tree.c\'s own shapes are the subject of C03, and the harness '
@@ -415,15 +499,25 @@ class C11(Spec):
             'random compositions of (5). (7) `G i k e`: foreach whose body calls get(obj, k) after item i — every (i, k) on small containers, '
             'random ones on containers under whole slices / filters (get is pure there: the oracle must stay silent) and on Range / Map / Zip / '
             'enumerate at the index of the item just handed out; `Z k e`: one object k times in a Zip, for objects whose cursor is held by the '
-            'caller; the disturbing cases (known findings) are in corpus/kf_c11_get_walk.ops and corpus/kf_c11_zip_alias.ops. non-trivial = the forward walk yields at least '
-            '2 items or a walk does not end with Terminal (exception / worker crash / cap); distinct = distinct op text.')
+            'caller; the disturbing cases (known findings) are in corpus/kf_c11_get_walk.ops and corpus/kf_c11_zip_alias.ops. '
+            '(8) `M k e`: mem(obj, $I(k)) on Range (arithmetic), Slice (`while (curr)`), Filter / Map (foreach) — oracle: k occurs in the defined '
+            'sequence; `R a b c`: Ranges of few elements at the limits of int64_t whose walks stay inside it (model side: the int64 machine rangeI64). '
+            'non-trivial = the forward walk yields at least '
+            '2 items or a walk does not end with Terminal (exception / worker crash / cap), or mem answers true / leaves the protocol; distinct = distinct op text.')
     trusted_base = ('lean/Cello/Iter.lean is a hand-written model of src/Iter.c and of the Iter/Len/Get instances of Array, List, Table, Tree, Tuple',
                     'lean/Cello/IterMut.lean is a hand-written model of the mutating functions of src/List.c (link words) and src/Array.c (backing store); '
                     'mutated Tables go through lean/Cello/Table.lean with the parameters of CelloGen/Table.lean (engine C02), mutated Trees through a plain '
                     'binary-search shape (Tree.c\'s shapes: engine C03)',
                     'harness/h_iter.c + lean/Driver/Iter.lean + vlib/props/c11.py compare (correspondence is testing)',
                     'the definition-based reference in harness/h_iter.c (ref_of) is the oracle of link (C)')
-    assumptions = ('element counts and Range values stay below 2^63 (sizes are Nat, int64_t is Int in the model)',
+    assumptions = ('element counts stay below 2^63 (sizes are Nat); in the composition theorems int64_t is Int: every Range involved is one whose '
+                   'walks stay inside int64_t INCLUDING the value one step beyond the last element (Range_Iter_Next adds the step before it compares) '
+                   'and as many further steps as an enclosing Slice takes past Terminal — for a Range on its own this is the explicit hypothesis '
+                   'RangeFitsFwd / RangeFitsBwd of C11_range64_lawful (the machine with the overflow test of every signed operation), refuted '
+                   'without it (C11_range64_refuted; known finding kf-c11-range-overflow, inputs in corpus/kf_c11_range_overflow.ops only)',
+                   'mem: Range_Mem is generated with non-negative keys and with negative keys on which key and key+len agree (C11_range_mem_partial; '
+                   'the rest is kf-c11-range-mem), Slice_Mem with keys that are in the slice (C11_slice_mem_partial; an absent key is kf-c11-slice-mem); '
+                   'once these findings are registered their territories are generated too (the implementation must still equal the model there)',
                    'mutations happen BEFORE a walk, through the public interface (push, pop, push_at, pop_at, rem, set, concat, resize) with arguments that '
                    'are not the container itself; calloc / realloc do not fail; a freed List node is never handed out again while a stale pointer to it exists '
                    '(addresses are not reused in the model)',
@@ -458,7 +552,10 @@ class C11(Spec):
         lines += ['V (range)', 'W (range)'] + [f'V (range {b})' for b in rv] + [f'V (range {a} {b})' for a in ['_'] + list(rv) for b in rv]
         lines += [f'V (range _ {b} {c})' for b in rv for c in ['_'] + list(rv)] + [f'V (range {a} {b} _)' for a in rv for b in rv]
         lines += [f'V (range {a} {b} {c})' for a in (-7, 0, 3) for b in rv for c in rv]
-        lines += [f'W (range {rng.randint(-10**6, 10**6)} {rng.randint(-10**6, 10**6)} {rng.choice([-1, 1]) * rng.randint(10**3, 10**6)})' for _ in range(300 * boost)]
+        for _ in range(300 * boost):
+            a, b, c = rng.randint(-10**6, 10**6), rng.randint(-10**6, 10**6), rng.choice([-1, 1]) * rng.randint(10**3, 10**6)
+            while c_range_len(a, b, c) > 900: c *= 2        # the harness caps a walk at 1000 items
+            lines.append(f'W (range {a} {b} {c})')
         chunked('range', lines)
         # (3) Slice: every (start, stop, step) of the cube over every length, per underlying kind
         # quick tier: every op whose walk hands Terminal to an Array / List / Table / Tree as a cursor dies under ASan in a forked
@@ -553,7 +650,13 @@ class C11(Spec):
                     lines.append(f"G {i} {k} {fixed_base(('array', 'list', 'tuple')[n % 3], n)}")
                 lines.append(f'G {i} {i} (range {n})')
         chunked('get_zip', lines, 500)
+        # (8) mem of the Get instances of src/Iter.c (M); Ranges at the limits of int64_t (R)
+        lines = mem_lines(rng, (600 if quick else 12000) * boost) + range64_lines(rng, (300 if quick else 6000) * boost)
+        chunked('mem_range64', lines, 500)
         lines = []
+        if registered('kf-c11-slice-mem') or registered('kf-c11-range-mem'):
+            lines += mem_lines(rng, (300 if quick else 6000) * boost, slice_absent=registered('kf-c11-slice-mem'), range_neg=registered('kf-c11-range-mem'))
+        if registered('kf-c11-range-overflow'): lines += range64_lines(rng, (150 if quick else 3000) * boost, overflow=True)
         if registered('kf-c11-get-walk'): lines += disturbing_get_lines(rng, (400 if quick else 8000) * boost)
         if registered('kf-c11-zip-alias'): lines += alias_zip_lines(rng, (200 if quick else 4000) * boost)
         if lines: chunked('get_zip_known', lines, 500)
@@ -567,6 +670,7 @@ class C11(Spec):
             g = GLINE.match(o)
             if o == 'O crash' or (m and (len(_items(m.group(1))) >= 2 or m.group(2) != 'term' or m.group(4) != 'term')): out.add(hash(op))
             elif g and (len(_items(g.group(1))) >= 2 or g.group(2) != 'term'): out.add(hash(op))
+            elif o in ('O mem=1', 'O mem=exc'): out.add(hash(op))
         return out
     def stats(self, case, c_out, m_out, acc):
         for l in core.lines_with('O ', c_out):
@@ -585,6 +689,8 @@ class C11(Spec):
             if op.startswith('V '): acc['built_with_stack_macros'] = acc.get('built_with_stack_macros', 0) + 1
             if op.startswith('G '): acc['walks_with_get_in_body'] = acc.get('walks_with_get_in_body', 0) + 1
             if op.startswith('Z '): acc['zip_of_one_object'] = acc.get('zip_of_one_object', 0) + 1
+            if op.startswith('M '): acc['mem_calls'] = acc.get('mem_calls', 0) + 1
+            if op.startswith('R '): acc['ranges_at_int64_limits'] = acc.get('ranges_at_int64_limits', 0) + 1
         for l in core.lines_with('X ', c_out):
             sg = re.search(r'sig=(\S+)', l)
             if sg: acc['oracle_' + sg.group(1)] = acc.get('oracle_' + sg.group(1), 0) + 1
